@@ -222,3 +222,4 @@ ASSUMPTIONS = [
     "a raising on_disable() leaves active_mode set (disable() aborts before clearing it): outside C14's quantifier (no callback faults), visible in the raise postcondition",
     "Timer.get() is non-decreasing",
 ]
+UNCONTRACTED_OK = {"AutonomousModeSelector": ["__init__"]}      # the constructor is verified in contracts/seldisc.py (own class table)
